@@ -3,7 +3,7 @@ SPEC = dict(
     title='Curves evaluate to their documented function, always within 0..255',
     props_file='Props/C06.v', props_mod='Props.C06',
     props_extra=[('Props/C06Tree.v', 'Props.C06Tree'), ('Props/C06Link.v', 'Props.C06Link'), ('Props/C06Steps.v', 'Props.C06Steps'), ('Props/C06LinMid.v', 'Props.C06LinMid')],
-    proof_files=['Proofs/CurveTree.v', 'Proofs/CurveLinks.v', 'Proofs/CurveRange.v', 'Proofs/StepsFloat.v', 'Proofs/StepsSeg.v', 'Proofs/StepsMono.v', 'Proofs/CurveLinMid.v', 'Model/Curves.v', 'Proofs/CurveFloat.v', 'Proofs/CurveFn.v', 'Proofs/CurvePid.v', 'Proofs/CurveLin.v',
+    proof_files=['Proofs/StepsClose.v', 'Proofs/StepsCloseLink.v', 'Proofs/CurveTree.v', 'Proofs/CurveLinks.v', 'Proofs/CurveRange.v', 'Proofs/StepsFloat.v', 'Proofs/StepsSeg.v', 'Proofs/StepsMono.v', 'Proofs/CurveLinMid.v', 'Model/Curves.v', 'Proofs/CurveFloat.v', 'Proofs/CurveFn.v', 'Proofs/CurvePid.v', 'Proofs/CurveLin.v',
                  'Proofs/CurveLinMono.v', 'Proofs/CurvePidRange.v', 'Proofs/CurveSteps.v', 'Proofs/CurveMono.v', 'Drv/Curves.v'],
     tie_vo=['Proofs/LeafTie.vo', 'Proofs/LeafTie2_functionAgg.vo', 'Proofs/LeafTie2_linearEval.vo', 'Proofs/LeafTie2_PidLoop.vo'],
     drivers=[dict(name='curves', drv_mod='Drv.Curves', drv_file='Drv/Curves.v', shard=150,
@@ -22,7 +22,7 @@ SPEC = dict(
     trusted_base=['FloatAxioms + classical reals through Flocq for the float64(sum) >= 255 / float64(diff) < 0 steps and the PID range lemma (see print_assumptions)',
                   'hand-written model coq/Model/Curves.v of linear.go/functional.go/pid.go/curve.go; agreement observed on the generated cases',
                   'overlay-only sensor type VerifSensor (GetValue returns chosen float64 values / errors) for PID curves; linear curves read real FileSensor objects'],
-    partial='Proved as ONE theorem over the whole curve graph (Props/C06Tree.v, C06_tree_full): for every acyclic registry graph and node, any depth / member count < 2^40, min/max leaves with min < max, steps leaves with speeds in [0,255], PID leaves: a returned value is in 0..255 unless a PID term of that call was NaN (ghost flag = failure of the boolean guard pid_guardb, the recorded class D18), every function node returns the code aggregate of its member values = the documented integer aggregate, an error occurs only when a PID leaf sensor read errs, a panic only when a leaf reads an unregistered sensor, OutOfFuel never. C06_range_full, C06_steps_range_full, C06_lin_minmax_mid_full are proved (Props/C06Link.v, C06Steps.v, C06LinMid.v). Still open: StepsDocClose (closeness |v - exact piecewise-linear interpolant| <= 1/2 + 2^-10 of a steps curve; its range, totality and integer-speed monotonicity are proved) - the only observer conjunct not derived from the model (Props/C06Link.v). Hypotheses that remain: no registered sensor average is NaN (non-finite readings belong to C08); |min|,|max| < 2^40. Not modelled: ui.Fatal on an unknown function type, stack overflow on cyclic curve graphs (OutOfFuel in the model), concurrent Evaluate() of one curve object (exercised by the driver only).',
+    partial='Proved as ONE theorem over the whole curve graph (Props/C06Tree.v, C06_tree_full): for every acyclic registry graph and node, any depth / member count < 2^40, min/max leaves with min < max, steps leaves with speeds in [0,255], PID leaves: a returned value is in 0..255 unless a PID term of that call was NaN (ghost flag = failure of the boolean guard pid_guardb, the recorded class D18), every function node returns the code aggregate of its member values = the documented integer aggregate, an error occurs only when a PID leaf sensor read errs, a panic only when a leaf reads an unregistered sensor, OutOfFuel never. C06_range_full, C06_steps_range_full, C06_lin_minmax_mid_full are proved (Props/C06Link.v, C06Steps.v, C06LinMid.v). StepsDocClose (|value - exact piecewise-linear interpolant| <= 1/2 + 2^-10 for every steps curve with |key| < 2^20, speeds in [0,255], finite reading) is proved too (C06_StepsDocClose_proved), so the observer link C06_no_false_alarm_all holds for every case: model = implementation implies the observer passes or the case is D18. Hypotheses that remain: no registered sensor average is NaN (non-finite readings belong to C08); |min|,|max| < 2^40. Not modelled: ui.Fatal on an unknown function type, stack overflow on cyclic curve graphs (OutOfFuel in the model), concurrent Evaluate() of one curve object (exercised by the driver only).',
     finding_codes={1: 'D18'},
     finding_text={'D18': 'PID curve whose loop value is NaN (dt = 0 with unchanged reading, or inf-inf from finite absurd gains) returns int(NaN) = -2^63 instead of a value in 0..255 (curves/pid.go:34-37)'},
     level_text='Machine-checked: the six aggregation branches of functional.go equal their documented integer functions for any number (<2^40) of member values in 0..255; the min/max linear curve is total, within 0..255, 255/0 at the ends and monotone for EVERY non-NaN float64 temperature (Flocq bridge through each rounded operation); the PID curve value is within 0..255 whenever the PID term is not NaN and provably -2^63 otherwise (D18, two witnesses replayed on the real curve every run); registry evaluation equals tree evaluation on acyclic graphs; C06_tree_full assembles these by structural induction into one statement about every node of every acyclic curve graph (range, documented aggregate at every function node, errors only from PID sensor read errors, panics only from unregistered sensors). Every run evaluates the Coq model against the real curves/sensors registries on ~1600 generated cases and judges the implementation output with an exact-rational observer proved equivalent to its Prop.',
